@@ -160,12 +160,46 @@ class BitStringPayloadDecoder(AbstractSimplePayloadDecoder):
     protoComponent = univ.BitString(())
     supportConstructedForm = True
 
+    def _collectsFragment(self, substrateFun, tagSet):
+        # A fragment of a constructed string may be constructed itself (X.690, 8.6.4):
+        # only a primitive fragment is raw content, a constructed one is reassembled
+        return (substrateFun is self.substrateCollector and
+                tagSet[0].tagFormat != tag.tagFormatSimple)
+
+    def _appendFragment(self, bitString, component):
+        if not isinstance(component, (univ.BitString, univ.SizedInteger)):
+            if not component:
+                raise error.PyAsn1Error('Empty BIT STRING fragment')
+
+            trailingBits = oct2int(component[0])
+            if trailingBits > 7:
+                raise error.PyAsn1Error(
+                    'Trailing bits overflow %s' % trailingBits
+                )
+
+            return self.protoComponent.fromOctetString(
+                component[1:], internalFormat=True,
+                prepend=bitString, padding=trailingBits
+            )
+
+        # nested constructed fragment, reassembled already
+        if not len(component):
+            return bitString
+
+        if isinstance(component, univ.BitString):
+            component = component.asInteger()
+
+        return self.protoComponent.fromBinaryString(
+            bin(component)[2:].rjust(len(component), '0'),
+            internalFormat=True, prepend=bitString
+        )
+
     def valueDecoder(self, substrate, asn1Spec,
                      tagSet=None, length=None, state=None,
                      decodeFun=None, substrateFun=None,
                      **options):
 
-        if substrateFun:
+        if substrateFun and not self._collectsFragment(substrateFun, tagSet):
             asn1Object = self._createComponent(asn1Spec, tagSet, noValue, **options)
 
             for chunk in substrateFun(asn1Object, substrate, length, options):
@@ -220,19 +254,7 @@ class BitStringPayloadDecoder(AbstractSimplePayloadDecoder):
                 if isinstance(component, SubstrateUnderrunError):
                     yield component
 
-            if not component:
-                raise error.PyAsn1Error('Empty BIT STRING fragment')
-
-            trailingBits = oct2int(component[0])
-            if trailingBits > 7:
-                raise error.PyAsn1Error(
-                    'Trailing bits overflow %s' % trailingBits
-                )
-
-            bitString = self.protoComponent.fromOctetString(
-                component[1:], internalFormat=True,
-                prepend=bitString, padding=trailingBits
-            )
+            bitString = self._appendFragment(bitString, component)
 
         yield self._createComponent(asn1Spec, tagSet, bitString, **options)
 
@@ -241,7 +263,7 @@ class BitStringPayloadDecoder(AbstractSimplePayloadDecoder):
                              decodeFun=None, substrateFun=None,
                              **options):
 
-        if substrateFun:
+        if substrateFun and not self._collectsFragment(substrateFun, tagSet):
             asn1Object = self._createComponent(asn1Spec, tagSet, noValue, **options)
 
             for chunk in substrateFun(asn1Object, substrate, length, options):
@@ -269,19 +291,7 @@ class BitStringPayloadDecoder(AbstractSimplePayloadDecoder):
             if component is eoo.endOfOctets:
                 break
 
-            if not component:
-                raise error.PyAsn1Error('Empty BIT STRING fragment')
-
-            trailingBits = oct2int(component[0])
-            if trailingBits > 7:
-                raise error.PyAsn1Error(
-                    'Trailing bits overflow %s' % trailingBits
-                )
-
-            bitString = self.protoComponent.fromOctetString(
-                component[1:], internalFormat=True,
-                prepend=bitString, padding=trailingBits
-            )
+            bitString = self._appendFragment(bitString, component)
 
         yield self._createComponent(asn1Spec, tagSet, bitString, **options)
 
@@ -294,7 +304,10 @@ class OctetStringPayloadDecoder(AbstractSimplePayloadDecoder):
                      tagSet=None, length=None, state=None,
                      decodeFun=None, substrateFun=None,
                      **options):
-        if substrateFun:
+        # A fragment of a constructed string may be constructed itself (X.690, 8.7.3):
+        # only a primitive fragment is raw content, a constructed one is reassembled
+        if substrateFun and (substrateFun is not self.substrateCollector or
+                             tagSet[0].tagFormat == tag.tagFormatSimple):
             asn1Object = self._createComponent(asn1Spec, tagSet, noValue, **options)
 
             for chunk in substrateFun(asn1Object, substrate, length, options):
